@@ -340,7 +340,7 @@ func C09(seed uint64, run int) *spec.Spec {
 	g := &c09gen{r: r, dictP: 0.08}
 	s := &spec.Spec{V: 1, Property: "C09", Seed: seed, Run: run}
 	kind := r.Weighted([]int{25, 30, 45}) // seq history | multi-task | multi-task with faults
-	if r.Chance(0.10) {
+	if r.Chance(0.13) {
 		// wide history: one caller, many cheap year-table / month / date constructions over the whole year range,
 		// a third of the years taken from the library's own tables
 		kind = 0
@@ -389,6 +389,11 @@ func C09(seed uint64, run int) *spec.Spec {
 			nTasks = r.Range(4, 6)
 		}
 	}
+	sweep := ""
+	if g.wide && r.Chance(0.35) {
+		// sweep: consecutive days (months, years) through one kind of object, the way a calendar page is rendered
+		sweep = r.PickS([]string{"tao", "foto", "lunar", "ltime", "solar2lunar", "lyear", "lmonth", "tao", "foto", "eightchar"})
+	}
 	nUniv := r.Range(6, 18)
 	if g.focus != "" {
 		nUniv = r.Range(10, 24)
@@ -396,8 +401,72 @@ func C09(seed uint64, run int) *spec.Spec {
 	if g.wide {
 		nUniv = r.Range(30, 60)
 	}
-	for i := 0; i < nUniv; i++ {
-		g.add(g.wrap(g.baseOp()))
+	if sweep != "" {
+		y := clampYear(g.year())
+		if y > 9900 {
+			y = 9900
+		}
+		if y < 10 {
+			y = 10
+		}
+		m, d := r.Range(1, 12), r.Range(1, 29)
+		h, mi, sec := g.hms()
+		for i := 0; i < nUniv; i++ {
+			var op ops.Op
+			switch sweep {
+			case "tao":
+				op = ops.Op{K: "tao", A: []int{y + 2697, m, d, h, mi, sec}}
+			case "foto":
+				op = ops.Op{K: "foto", A: []int{y + 543, m, d, h, mi, sec}}
+			case "lunar", "ltime":
+				op = ops.Op{K: sweep, A: []int{y, m, d, h, mi, sec}}
+			case "solar2lunar", "eightchar":
+				sd := d
+				if sd > 28 {
+					sd = 28
+				}
+				op = ops.Op{K: sweep, A: []int{y, m, sd, h, mi, sec}}
+				if sweep == "eightchar" {
+					op.A = append(op.A, 2)
+				}
+			case "lyear":
+				op = ops.Op{K: "lyear", A: []int{clampYear(y + i)}}
+			default:
+				op = ops.Op{K: "lmonth", A: []int{y, m}}
+			}
+			switch sweep {
+			case "tao", "foto", "ltime", "lyear", "lmonth":
+				// full digest: cheap for these objects and it includes the festival / table accessors
+			default:
+				inner := op
+				op = ops.Op{K: "sub", Sub: &inner, Acc: r.U64() >> 1, N: r.Range(10, 30)}
+			}
+			g.add(op)
+			// next day (lunar months have 29 or 30 days: 30 is tried and may be rejected, which is itself a recovered panic)
+			switch sweep {
+			case "lyear":
+			case "lmonth":
+				m++
+			default:
+				d++
+				lim := 29
+				if sweep == "solar2lunar" || sweep == "eightchar" {
+					lim = 28
+				}
+				if d > lim {
+					d = 1
+					m++
+				}
+			}
+			if m > 12 {
+				m = 1
+				y++
+			}
+		}
+	} else {
+		for i := 0; i < nUniv; i++ {
+			g.add(g.wrap(g.baseOp()))
+		}
 	}
 	for t := 0; t < nTasks; t++ {
 		n := r.Range(2, 7)
